@@ -44,6 +44,9 @@ Val(seed, i, j) ==
   ELSE IF Palette = 3 THEN 0 - (((i * 3 + j * 5 + seed) % 7) + 1)      \* all stored values negative (-7..-1), extrema anywhere
   ELSE ((i * 5 + j * 3 + seed) % 7) + 1                                  \* all stored values positive (1..7)
 SVec(len) == [q \in 1..len |-> IF q % 2 = 1 THEN q + 1 ELSE -(2 * q - 1)]      \* 2,-3,4,-7,...  scaling vectors
+\* the special scaling factors 1, -1, 0 (a row / column scaled by exactly one must still be written when the call is out of place)
+SVecU(len) == [q \in 1..len |-> CASE q % 4 = 1 -> 1 [] q % 4 = 2 -> -1 [] q % 4 = 3 -> 0 [] OTHER -> 2]
+SVecs(len) == {SVec(len), SVecU(len)}
 DVec(len) == [q \in 1..len |-> IF q % 3 = 0 THEN 0 ELSE IF q % 2 = 1 THEN -2 ELSE 3] \* -2,3,0,...  diagonal of A
 AbsMat(m, n, Dn) == [i \in 1..m |-> [j \in 1..n |-> Abs(Dn[i][j])]]
 Lim == 16777216
@@ -109,12 +112,10 @@ AxpyOp == IsElem /\ \E self \in BOOLEAN, al \in Alphas6 :
 ScaleOp == IsElem /\ \E self \in BOOLEAN, al \in Alphas6 :
             Fin([NoCall EXCEPT !.op = "scale", !.an = al[1], !.ad = al[2], !.self = self],
                 WrX(MatScale(X.m, X.n, al[1], Src(self).dense), al[2]))
-ScaleRowsOp == IsElem /\ \E self \in BOOLEAN :
-            LET s == SVec(X.m) IN
+ScaleRowsOp == IsElem /\ \E self \in BOOLEAN, s \in SVecs(X.m) :
             Fin([NoCall EXCEPT !.op = "scale_rows", !.self = self, !.s = s],
                 WrX([i \in 1..X.m |-> [j \in 1..X.n |-> Src(self).dense[i][j] * s[i]]], 1))
-ScaleColsOp == IsElem /\ \E self \in BOOLEAN :
-            LET s == SVec(X.n) IN
+ScaleColsOp == IsElem /\ \E self \in BOOLEAN, s \in SVecs(X.n) :
             Fin([NoCall EXCEPT !.op = "scale_cols", !.self = self, !.s = s],
                 WrX([i \in 1..X.m |-> [j \in 1..X.n |-> Src(self).dense[i][j] * s[j]]], 1))
 RowSums(Mx) == [i \in 1..Mx.m |-> SumSeq(Mx.dense[i])]
@@ -126,8 +127,7 @@ FrobOp == IsElem /\ Fin([NoCall EXCEPT !.op = "norm_frobenius"], SRes(SumSeq(Row
 RowNormOp == IsElem /\ \E op \in {"row_norm2", "row_norm2sqr"} :
                Fin([NoCall EXCEPT !.op = op], VRes(RowSq(X), IF op = "row_norm2" THEN "sqrt" ELSE "exact", SumSeq(RowSq(X))))
 \* row_norms_i = sum_j scal_j (this_ij)^2   (documented formula; scal lives in the column space)
-RowNormScaledOp == IsElem /\
-               LET s == SVec(X.n) IN
+RowNormScaledOp == IsElem /\ \E s \in SVecs(X.n) :
                Fin([NoCall EXCEPT !.op = "row_norm2sqr_scaled", !.s = s],
                    VRes([i \in 1..X.m |-> SumSeq([j \in 1..X.n |-> s[j] * X.dense[i][j] * X.dense[i][j]])], "exact",
                         SumSeq(RowSq(X)) * (2 * X.n + 1)))
